@@ -351,7 +351,7 @@ PROPS['C10'] = {
 }
 
 PROPS['C03'] = {
-    'modules': ['c03', 'c05'],
+    'modules': ['c03', ('c05', ['A5.8'])],
     'level': 'other',
     'quick_configs': ['default'],
     'thorough_configs': ALL,
@@ -377,11 +377,11 @@ PROPS['C03'] = {
 }
 
 PROPS['C04'] = {
-    'modules': ['c04', 'fattype', 'c14'],
+    'modules': ['c04', 'fattype', ('c14', ['P2', 'P3'])],
     'level': 'other',
     'quick_configs': ['default'],
     'thorough_configs': ALL,
-    'controls': ['P3', 'P4'],
+    'controls': ['P3'],
     'floors': {'default': {'K1': 10, 'K3': 2, 'K4': 1, 'FT1': 1}},
     'rule_text': 'obligations: 5 on-disk layouts x {encoder, decoder} compared field by field (78 specification fields) '
                  'with the Microsoft FAT specification table; entry-position and extent provenance; the FAT-width table; '
@@ -429,4 +429,29 @@ PROPS['C11'] = {
     'level_note': 'offset classes are decided by data dependence (over-approximate: may miss, cannot alarm)',
     'technique': 'static analysis: write-site enumeration, dominance and data-dependence classification on MIR',
     'assumptions': COMMON_ASSUMPTIONS + ['cluster numbers passed to offset_from_cluster are valid (premise shared with C17/C20)'],
+}
+
+PROPS['C18'] = {
+    'modules': ['c18'],
+    'level': 'other',
+    'quick_configs': ['default'],
+    'thorough_configs': ALL,
+    'controls': [],
+    'floors': {'default': {'R18.1': 3, 'R18.2': 6, 'R18.4': 1, 'R18.5': 3}},
+    'rule_text': 'obligations: one per clock read (must go through options.time_provider), per timestamp setter (closed '
+                 'caller set from the mono call graph), the access-date option guard, the stamp-on-write must-call, the '
+                 'rename-keeps-body shape and one per editor setter (its unchanged-test must cover every stored field)',
+    'explanation': 'Stamping rules as who-may-call and must-call rules over the monomorphic call graph and the MIR: the '
+                   'clock is only read through the configured provider (the system clock only inside the chrono provider); '
+                   'created/modified/accessed are set only from entry creation, the public setters, the post-write update '
+                   'and File::read under update_accessed_date; every Ok-exit of File::write with a non-zero count crosses '
+                   'the update that stamps the modification time with the clock value; DirFileEntryData::renamed is a clone '
+                   'with only `name` assigned and rename writes that value; each editor setter compares all stored fields '
+                   'of its timestamp before deciding the entry is unchanged (interprocedural field-read summary). The DOS '
+                   'date/time bit packing round trip over the date/time domain is arithmetic and not decided.',
+    'claim': 'Stamping discipline (who reads the clock, who sets which timestamp, when) on all paths; the packing round '
+             'trip is not decided.',
+    'level_note': 'caller sets are closed tables in rules/c18.py (a new legitimate caller must be added there)',
+    'technique': 'static analysis: who-may-call over the mono call graph + must-pass-through and dependence on MIR',
+    'assumptions': COMMON_ASSUMPTIONS,
 }
